@@ -8,10 +8,16 @@ use std::net::IpAddr;
 use time::{OffsetDateTime, UtcOffset};
 
 pub fn to_time(t: &TimeSpec) -> Result<OffsetDateTime, String> {
-    let ns = (t.unix as i128) * 1_000_000_000 + t.nanos as i128;
-    let dt = OffsetDateTime::from_unix_timestamp_nanos(ns).map_err(|e| format!("instant not representable: {}", e))?;
+    // built from the LOCAL calendar fields (the time type holds a local date-time plus an offset): a value whose local
+    // reading is inside the type's range is constructible even when its UTC reading is not
     let off = UtcOffset::from_whole_seconds(t.offset).map_err(|e| format!("offset not representable: {}", e))?;
-    dt.checked_to_offset(off).ok_or_else(|| "local date-time outside the time type's range".to_string())
+    let local = t.unix + t.offset as i64;
+    let (days, secs) = (local.div_euclid(86400), local.rem_euclid(86400));
+    let (y, m, d) = refmodel::der::civil_from_days(days);
+    let month = time::Month::try_from(m as u8).map_err(|e| format!("month: {}", e))?;
+    let date = time::Date::from_calendar_date(i32::try_from(y).map_err(|_| "year outside the time type's range".to_string())?, month, d as u8).map_err(|e| format!("local date outside the time type's range: {}", e))?;
+    let tm = time::Time::from_hms_nano((secs / 3600) as u8, (secs % 3600 / 60) as u8, (secs % 60) as u8, t.nanos).map_err(|e| format!("time of day: {}", e))?;
+    Ok(time::PrimitiveDateTime::new(date, tm).assume_offset(off))
 }
 
 pub fn to_dn_type(t: &DnTypeSpec) -> DnType {
